@@ -20,6 +20,10 @@ def check(run):
     if not quick:
         # the unrestricted cross product (item lists of <= 3, joins, order, distinct, top together) over bigger tables: sampled
         ec.run_family(run, 'C01-cross-product', 'Q_MIX', 'R_2x2', recsB='R_w2', maxA=4, maxB=3, hdrmodes=(False, True), simulate=8000)
+    # rbql-js/rbql.js is an anchor of this property too: the main families through the JavaScript engine (C19 runs them all; here the core ones)
+    ec.run_family_js(run, 'C01-js-select', 'Q_C01a', 'R_2x2', maxA=2)
+    ec.run_family_js(run, 'C01-js-empty-strings', 'Q_C01a', 'R_2x2e', maxA=2)
+    ec.run_family_js(run, 'C01-js-except', 'Q_C01exc', 'R_w3N', maxA=1, hdrmodes=(False, True))
     # random cross product of every query kind x join x fault plan over ragged tables (tlc -simulate, seeded by VERIF_SEED)
     ec.run_family(run, 'C01-random-cross-product', 'Q_MIX', 'R_w2', recsB='R_w2', maxA=3, maxB=2, hdrmodes=(False, True), breakpoints=(0, 0, 0, 1, 2), simulate=1200 if quick else 20000, opts={'sim_next': 'SimNext2'})
     run.exhaustive = True
